@@ -923,7 +923,7 @@ func IsLoopback(addr string) bool {
 	}
 	return host == "localhost" ||
 		strings.Trim(host, "[]") == "::1" ||
-		strings.HasPrefix(host, "127.") ||
+		(strings.HasPrefix(host, "127.") && net.ParseIP(host) != nil) || // (127.example.com is a DNS name)
 		strings.HasSuffix(host, ".localhost")
 }
 
